@@ -6,7 +6,7 @@ import box, drv, rich, scen, gen, emit
 def run(R):
     if not R.build():
         return
-    R.lean(["C17"])
+    R.lean(["C17", "C17Run"])
     import hunted
     hunted.run(R, "C17")
     quick = R.tier == "quick"
